@@ -4,7 +4,7 @@
    HMAC and AES-CTR are abstract [Section] functions; everything around them (framing, length and
    opcode gates, parsing, field rules, which key bytes / which plain text go into the primitives,
    the digest search order with the mutable lastDigest) is written out.  time.Now() is the
-   parameter [now] (nanoseconds since the epoch). *)
+   argument [now] (nanoseconds since the epoch). *)
 From Coq Require Import List NArith ZArith Bool Arith.
 From Coq.Strings Require Import Byte.
 From L4.gen Require Import Consts.
